@@ -214,11 +214,33 @@ def compare_reflection(chk, w, out0, outr, L, desc, wit, noise_free):
                 chk.violation("reflection:model-counts-differ", "%s: %s" % (desc, d[:3]), wit)
 
 
+def ends_at_tolerance_boundary(w, lo=46, hi=54):
+    """Annotated isoforms of one gene with the same intron chain whose starts or ends lie about apa_delta (50) apart: whether a tailed read
+    of one of them also matches the other then hinges on 1-2 bp, i.e. on the recorded polyA/polyT coordinate finding."""
+    for g in w.genes:
+        ts = g.transcripts
+        for i in range(len(ts)):
+            for j in range(i + 1, len(ts)):
+                if ts[i].introns == ts[j].introns and (lo <= abs(ts[i].start - ts[j].start) <= hi or lo <= abs(ts[i].end - ts[j].end) <= hi):
+                    return True
+    return False
+
+
 def make_world(seed, kind):
+    # worlds in which the KNOWN 1-2 bp polyA/polyT coordinate asymmetry decides an assignment (alternative ends exactly one tolerance apart)
+    # are replaced by the next world of the same kind: that manifestation is covered by the recorded finding, not re-reported
+    for attempt in range(20):
+        w, nf = _make_world(seed + 7919 * attempt, kind)
+        if not ends_at_tolerance_boundary(w):
+            return w, nf
+    return w, nf
+
+
+def _make_world(seed, kind):
     if kind == "events":
         return c14.event_world(seed, twins=False), False      # exact positional ties are outside the quantifier of C11
     if kind == "noise-free":
-        w = world2.rich_world(seed, n_chroms=3, genes_per_chrom=3, reads_per_t=0, hidden_cov=0, multimappers=False, unmapped=0, extra_len=100000)
+        w = world2.rich_world(seed, n_chroms=3, genes_per_chrom=3, reads_per_t=0, hidden_cov=0, multimappers=False, unmapped=0, extra_len=125000)
         rng = w.rng
         # unannotated isoforms whose first (last) exon begins (ends) in the middle of an intron of the annotated isoform, on both strands:
         # the left-hand and the right-hand version are mirror images of each other
@@ -290,11 +312,41 @@ def make_world(seed, kind):
             for t in g.hidden:
                 for _ in range(10 if t.kind == "alt-terminal-exon-inside-intron" else 6):
                     w.read_from_transcript(t, mode="full", jitter=0, polya=True, flag=rng.choice((0, 16)))
+        # unannotated exon-skipping isoforms whose reads are truncated at ONE side, at four different positions inside the terminal exon and
+        # far (> apa_delta) from the end of the annotated isoform that shares the terminal intron: the end of the novel model on that side is
+        # taken from the other isoform's reads and then corrected towards the model's own reads (left and right twin, both strands)
+        for ci, chrom in enumerate(w.chrom_order):
+            p = max([g.end for g in w.genes + thin if g.chrom == chrom] + [1000]) + 2500
+            for k, (strand, side) in enumerate((("+", "R"), ("-", "R"), ("+", "L"), ("-", "L"))):
+                if p + 6000 > w.chrom_len(chrom):
+                    break
+                a = [(p, p + 599), (p + 1000, p + 1199), (p + 1700, p + 1949), (p + 2500, p + 3099)]
+                g = Gene("END%d_%d" % (ci + 1, k + 1), chrom, strand)
+                g.transcripts.append(Transcript(g.id + ".t1", g.id, chrom, strand, a, True, "ends-host"))
+                skip = [a[0], a[2], a[3]] if side == "R" else [a[0], a[1], a[3]]
+                g.hidden.append(Transcript(g.id + ".h1", g.id, chrom, strand, skip, False, "truncated-on-one-side"))
+                for t in g.transcripts + g.hidden:
+                    for intr in t.introns:
+                        w.plant_sites(chrom, intr, strand)
+                thin.append(g)
+                for _ in range(6):
+                    w.make_read(chrom, list(a), polya=30 if strand == "+" else 0, polyt=30 if strand == "-" else 0, flag=0 if strand == "+" else 16,
+                                truth={"src": g.id + ".t1", "class": "exact"})
+                for j in range(4):
+                    ex = list(skip)
+                    if side == "R":
+                        ex[-1] = (ex[-1][0], ex[-1][1] - 180 - 40 * j)
+                    else:
+                        ex[0] = (ex[0][0] + 180 + 40 * j, ex[0][1])
+                    three_prime_complete = (side == "L") == (strand == "+")
+                    w.make_read(chrom, ex, polya=30 if (strand == "+" and three_prime_complete) else 0, polyt=30 if (strand == "-" and three_prime_complete) else 0,
+                                flag=0 if strand == "+" else 16, truth={"src": g.id + ".h1", "class": "truncated-on-one-side"})
+                p += 3100 + 2500
         # unannotated three-exon transcripts seen by only two full-length reads (too few to be reported) plus unspliced 3' fragments with a
         # tail lying inside their 3'-terminal exon (on both strands; the runs on this world report novel unspliced transcripts), and
         # free-standing unspliced tailed loci of both strands
         for ci, chrom in enumerate(w.chrom_order):
-            p = max([g.end for g in w.genes if g.chrom == chrom] + [1000]) + 2500
+            p = max([g.end for g in w.genes + thin if g.chrom == chrom] + [1000]) + 2500
             for k, (strand, n_fl) in enumerate((("+", 2), ("-", 2), ("+", 1), ("-", 1))):
                 if p + 9000 > w.chrom_len(chrom):
                     break
